@@ -309,6 +309,18 @@ def run(prog: Program, res: Result, tier: str) -> None:
     else:
         res.bad("R4", rs, flips[0], "channel flip condition is not `sub_hdr.freqs.foff > 0`", key=key)
         reader_flips = True
+    # the flip lives in read_subints only: every sample the reader delivers must come through it (who-may-call)
+    owners = {"read_subint_pol": {"PFITSFile.read_subints"}, "read_subint": {"PFITSFile.read_subint_pol"}}
+    for callee, allowed in owners.items():
+        sites = [(f_, c_) for f_ in prog.all_funcs() for c_ in calls_in_body(f_.node)
+                 if isinstance(c_.func, ast.Attribute) and c_.func.attr == callee]
+        for f_, c_ in sites:
+            key_ = f"order:only-through-read_subints:{f_.qualname}:{callee}"
+            if f_.qualname in allowed:
+                res.ok("R4", f_, c_, f"{callee} is reached through {f_.qualname} (below the channel-order normalisation of read_subints)", key=key_)
+            else:
+                res.bad("R4", f_, c_, f"{f_.qualname} reads rows with {callee} directly: only read_subints reverses the channel axis of ascending files, so "
+                        f"these samples are in file order while the header and every other read are in descending order", key=key_)
     # header: under foff > 0, foff must be negated and fch1 moved to the other band edge
     fl = flow_of(fp)
     src = norm(fp.node)
@@ -412,6 +424,9 @@ R = "sigpyproc/readers.py"
 H = "sigpyproc/header.py"
 P = "sigpyproc/io/pfits.py"
 MUTANTS = [
+    {"id": "c18-one-row-shortcut", "file": "sigpyproc/readers.py", "expect": "C18.R4",
+     "old": "            data = self._fitsfile.read_subints(startsub, nsubs)\n            data = data[startsamp : startsamp + block]",
+     "new": "            if startsamp == 0 and block == self.sub_hdr.subint_samples:\n                data = self._fitsfile.read_subint_pol(startsub)\n            else:\n                data = self._fitsfile.read_subints(startsub, nsubs)\n                data = data[startsamp : startsamp + block]"},
     {"id": "c18-revert-F28", "file": "sigpyproc/io/pfits.py", "expect": "C18.R",
      "old": "            scale = np.float32(1.0 / np.sqrt(2.0))", "new": "            scale = 1.0 / np.sqrt(2.0)"},
     {"id": "c18-revert-F22", "file": R, "expect": "C18.R1",
